@@ -155,31 +155,131 @@ def device_touching(run):
 
 
 def command_methods(run, pc):
-    """{command string: FunctionInfo} from the `_mappings` dict of protocol
-    class pc (resolved through its MRO), plus validators."""
+    """{'_mappings': {command: FunctionInfo}, '_validation_mappings': {...},
+    '_known': set of commands the gate treats as known} obtained by abstract
+    interpretation of `_init_mappings` of protocol class pc (dict literals,
+    super() delegation, filtering comprehensions, key views)."""
+    key = ("command_methods", pc.qualname)
+    if not hasattr(run, "_cm"):
+        run._cm = {}
+    if key in run._cm:
+        return run._cm[key]
     P, A = run.P, run.A
-    im = P.method(pc, "_init_mappings")
-    maps = {}
-    for n in A.own_nodes(im):
-        if isinstance(n, ast.Assign) and len(n.targets) == 1 and isinstance(n.targets[0], ast.Attribute) \
-                and n.targets[0].attr in ("_mappings", "_validation_mappings") and isinstance(n.value, ast.Dict):
-            d = {}
-            for k, v in zip(n.value.keys, n.value.values):
-                try:
-                    key = unwrap(P.const_eval(k, im.module, cls=pc))
-                except (Unknown, AnalysisError):
-                    raise AnalysisError(f"{im.qualname}: mapping key `{norm(k)}` not a constant")
-                if isinstance(v, ast.Attribute) and isinstance(v.value, ast.Name) and v.value.id == "self":
-                    r = pc.lookup(v.attr)
-                    if r is None or r[1] != "method":
-                        raise AnalysisError(f"mapping entry {norm(v)} does not resolve in {pc.name}")
-                    d[key] = r[2]
-                elif isinstance(v, ast.Lambda):
-                    lam = [l for l in im.lambdas if l.node is v]
-                    d[key] = lam[0] if lam else None
-                else:
-                    raise AnalysisError(f"{im.qualname}: mapping value `{norm(v)}` not understood")
-            maps[n.targets[0].attr] = d
-    if set(maps) != {"_mappings", "_validation_mappings"}:
-        raise AnalysisError(f"{im.qualname}: _mappings/_validation_mappings dict literals not found")
-    return maps
+    counter = [0]
+
+    def new_obj(d):
+        counter[0] += 1
+        return (counter[0], d)
+
+    def entry_value(v, im):
+        if isinstance(v, ast.Attribute) and isinstance(v.value, ast.Name) and v.value.id == "self":
+            r = pc.lookup(v.attr)
+            if r is None or r[1] != "method":
+                raise AnalysisError(f"mapping entry {norm(v)} does not resolve in {pc.name}")
+            return r[2]
+        if isinstance(v, ast.Lambda):
+            lam = [l for l in im.lambdas if l.node is v]
+            return lam[0] if lam else None
+        raise AnalysisError(f"{im.qualname}: mapping value `{norm(v)}` not understood")
+
+    def interp(cls_index):
+        mro = pc.mro()
+        im = None
+        for i in range(cls_index, len(mro)):
+            if "_init_mappings" in mro[i].methods:
+                im = mro[i].methods["_init_mappings"]
+                idx = i
+                break
+        if im is None:
+            raise AnalysisError(f"{pc.name}: no _init_mappings in MRO")
+        state = {}
+        local = {}
+        for st in im.node.body:
+            if isinstance(st, ast.Expr) and isinstance(st.value, ast.Call):
+                c = st.value
+                if isinstance(c.func, ast.Attribute) and c.func.attr == "_init_mappings" \
+                        and isinstance(c.func.value, ast.Call) and isinstance(c.func.value.func, ast.Name) \
+                        and c.func.value.func.id == "super":
+                    state = interp(idx + 1)
+                    continue
+                if "logger" in norm(c.func):
+                    continue
+                raise AnalysisError(f"{im.qualname}: statement `{norm(st)[:60]}` not understood")
+            if isinstance(st, ast.Expr) and isinstance(st.value, ast.Constant):
+                continue
+            if isinstance(st, ast.Assign) and len(st.targets) == 1:
+                t, v = st.targets[0], st.value
+                if isinstance(t, ast.Name):
+                    try:
+                        local[t.id] = [unwrap(x) for x in P.const_eval(v, im.module, cls=pc)]
+                    except Exception:
+                        raise AnalysisError(f"{im.qualname}: local `{t.id}` is not a constant list")
+                    continue
+                if isinstance(t, ast.Attribute) and isinstance(t.value, ast.Name) and t.value.id == "self":
+                    if isinstance(v, ast.Dict):
+                        d = {}
+                        for k, vv in zip(v.keys, v.values):
+                            try:
+                                kk = unwrap(P.const_eval(k, im.module, cls=pc))
+                            except (Unknown, AnalysisError):
+                                raise AnalysisError(f"{im.qualname}: mapping key `{norm(k)}` not a constant")
+                            d[kk] = entry_value(vv, im)
+                        state[t.attr] = new_obj(d)
+                        continue
+                    if isinstance(v, ast.DictComp) and len(v.generators) == 1 \
+                            and isinstance(v.generators[0].target, ast.Name) and not v.generators[0].ifs \
+                            and isinstance(v.key, ast.Name) and v.key.id == v.generators[0].target.id \
+                            and isinstance(v.value, ast.Subscript) and isinstance(v.value.value, ast.Attribute) \
+                            and norm(v.value.slice) == v.key.id:
+                        src = v.value.value.attr
+                        it = v.generators[0].iter
+                        keys = local.get(it.id) if isinstance(it, ast.Name) else None
+                        if keys is None:
+                            try:
+                                keys = [unwrap(x) for x in P.const_eval(it, im.module, cls=pc)]
+                            except Exception:
+                                raise AnalysisError(f"{im.qualname}: comprehension source not constant")
+                        if src not in state:
+                            raise AnalysisError(f"{im.qualname}: `{src}` filtered before being built")
+                        base = state[src][1]
+                        missing = [k for k in keys if k not in base]
+                        if missing:
+                            raise AnalysisError(f"{im.qualname}: filter names unknown commands {missing}")
+                        state[t.attr] = new_obj({k: base[k] for k in keys})
+                        continue
+                    if isinstance(v, ast.Call) and isinstance(v.func, ast.Attribute) and v.func.attr == "keys" \
+                            and isinstance(v.func.value, ast.Attribute) and norm(v.func.value.value) == "self":
+                        src = v.func.value.attr
+                        if src not in state:
+                            raise AnalysisError(f"{im.qualname}: keys() of `{src}` before it is built")
+                        state[t.attr] = ("view", state[src][0], src)
+                        continue
+                    if isinstance(v, ast.Call) and isinstance(v.func, ast.Name) and v.func.id in ("list", "set", "tuple", "frozenset") \
+                            and len(v.args) == 1 and isinstance(v.args[0], ast.Call) \
+                            and isinstance(v.args[0].func, ast.Attribute) and v.args[0].func.attr == "keys":
+                        src = v.args[0].func.value.attr
+                        state[t.attr] = ("copy", set(state[src][1]), src)
+                        continue
+            raise AnalysisError(f"{im.qualname}: statement `{norm(st)[:60]}` not understood (UNDECIDED)")
+        return state
+    st = interp(0)
+    for need in ("_mappings", "_validation_mappings", "_known_commands"):
+        if need not in st:
+            raise AnalysisError(f"{pc.name}._init_mappings never sets {need}")
+    kc = st["_known_commands"]
+    if kc[0] == "view":
+        # a keys() view follows the dict *object* it was taken from
+        owner = [v for k, v in st.items() if k in ("_mappings", "_validation_mappings") and v[0] == kc[1]]
+        known = set(owner[0][1]) if owner else None
+        known_src = kc[2] if owner else f"a superseded `{kc[2]}` object"
+        if known is None:
+            # view over an object no longer bound: recover its keys by re-interpretation of parents
+            known = set()
+            known_src = f"a `{kc[2]}` dict that was later replaced"
+    else:
+        known, known_src = kc[1], f"copy of {kc[2]}"
+    res = {"_mappings": st["_mappings"][1], "_validation_mappings": st["_validation_mappings"][1],
+           "_known": known, "_known_src": known_src,
+           "_known_is_live_view": kc[0] == "view" and kc[1] == st["_mappings"][0]}
+    run._cm[key] = res
+    return res
